@@ -41,7 +41,9 @@ CONSTANTS Docs, Fields, Handles,
           MaxSteps,          \* bound of the history (identities grow with every append)
           Extras,            \* TRUE: also append_newline / append_comment / reformat_when_finished
           Emit,              \* TRUE: print one CASE line (the history with expected observations) at MaxSteps
-          SharedTokenCache   \* negative control
+          SharedTokenCache,  \* negative control
+          StaleSnapshot      \* negative control: a write-back whose result equals the content the OBJECT was made
+                             \* from is skipped ("nothing to write") -- wrong from the second round of one object on
 
 VARIABLES doc, unk, H, held, actor, lastop, res, got, steps, hist
 mvars == <<doc, unk, H, held, actor, lastop, res, got, steps, hist>>
@@ -50,7 +52,7 @@ Modes == {"sp", "cm"}
 Other(m) == IF m = "sp" THEN "cm" ELSE "sp"
 NEWW == 9
 Dead == [live |-> FALSE, inb |-> FALSE, d |-> 0, f |-> "", m |-> "", el |-> <<>>, nid |-> 1,
-         tail |-> "none", dirty |-> FALSE, stale |-> FALSE]
+         tail |-> "none", dirty |-> FALSE, stale |-> FALSE, orig |-> <<>>]
 
 Vals(e)        == [i \in 1..Len(e) |-> e[i].v]
 HasV(e, v)     == \E i \in 1..Len(e) : e[i].v = v
@@ -75,7 +77,7 @@ Open(h, d, f, m, seen) ==
    /\ LET base == IF unk[d][f][m] THEN seen ELSE doc[d][f][m] IN
       /\ Put(h, [live |-> TRUE, inb |-> TRUE, d |-> d, f |-> f, m |-> m,
                  el |-> [i \in 1..Len(base) |-> [id |-> i, v |-> base[i]]], nid |-> Len(base) + 1,
-                 tail |-> "none", dirty |-> FALSE, stale |-> FALSE])
+                 tail |-> "none", dirty |-> FALSE, stale |-> FALSE, orig |-> base])
       /\ doc' = [doc EXCEPT ![d][f][m] = base] /\ unk' = [unk EXCEPT ![d][f][m] = FALSE]
    /\ held' = [held EXCEPT ![h] = <<>>] /\ res' = "ok" /\ got' = <<>> /\ Note(h, "open")
 
@@ -115,6 +117,10 @@ HeldSet1(h, r, w) == /\ HeldOK(h, r)
 HeldRemove1(h, r) == /\ HeldOK(h, r)
                      /\ LET n == DelAt(H[h].el, IdxId(H[h].el, held[h][r])) IN
                         Edit(h, "heldremove", [H[h] EXCEPT !.el = n, !.tail = Emptied(n, @), !.dirty = TRUE], "ok")
+\* a call (append / replace / reference assignment) that hands in a text which is NOT a single item of the
+\* interpretation -- text after an inner separator, blanks or separators at either end, nothing at all -- is
+\* refused by some exception and changes nothing, neither here nor in any other view (ListView!ARefuse)
+Bad1(h, op, rs) == InBlock(h) /\ op \in {"badappend", "badreplace", "badrefset"} /\ rs # "ok" /\ Edit(h, op, H[h], rs)
 Sep1(h)      == InBlock(h) /\ H[h].m = "cm" /\ Edit(h, "sep", [H[h] EXCEPT !.tail = "none", !.dirty = TRUE], "ok")
 Nl1(h, rs)   == /\ InBlock(h)
                 /\ IF H[h].tail = "none" THEN rs = "ok" /\ Edit(h, "nl", [H[h] EXCEPT !.tail = "nl"], "ok")
@@ -132,7 +138,7 @@ Leave1(h, rs) ==
    /\ InBlock(h)
    /\ rs \in {"ok", "ValueError"} /\ (rs = "ValueError" => MayRefuse(h))
    /\ LET r == H[h] d == r.d f == r.f m == r.m IN
-      IF r.dirty /\ rs = "ok"
+      IF r.dirty /\ rs = "ok" /\ ~(StaleSnapshot /\ Vals(r.el) = r.orig)
       THEN /\ doc' = [doc EXCEPT ![d][f][m] = Vals(r.el)]
            /\ unk' = [unk EXCEPT ![d][f] = [x \in Modes |-> x # m \/ r.stale \/ r.el = <<>>]]
            /\ H' = [x \in Handles |->
@@ -199,6 +205,10 @@ Next ==
                   \/ HeldRemove1(h, r) /\ Log(h, 0, "", "", <<>>, <<>>, r)
             \/ (Extras /\ (Nl1(h, IF H[h].tail = "none" THEN "ok" ELSE "ValueError") \/ Cmt1(h) \/ Reformat1(h)) /\ Log(h, 0, "", "", <<>>, <<>>, 0))
             \/ (Extras /\ (NoReformat1(h) \/ VFmt1(h, TRUE) \/ VFmt1(h, FALSE) \/ Abort1(h)) /\ Log(h, 0, "", "", <<>>, <<>>, 0))
+            \/ (Bad1(h, "badappend", "ValueError") /\ Log(h, 0, "", "", <<>>, <<>>, 0))
+            \/ \E i \in 1..Len(H[h].el) :
+                  \/ Bad1(h, "badreplace", "ValueError") /\ Log(h, 0, "", "", H[h].el[i].v, <<>>, 0)
+                  \/ Bad1(h, "badrefset", "ValueError") /\ Log(h, 0, "", "", <<>>, <<>>, i)
             \/ Leave1(h, IF MayRefuse(h) THEN "ValueError" ELSE "ok") /\ Log(h, 0, "", "", <<>>, <<>>, 0)
             \/ Reenter1(h) /\ Log(h, 0, "", "", <<>>, <<>>, 0)
             \/ Drop1(h) /\ Log(h, 0, "", "", <<>>, <<>>, 0)
@@ -214,6 +224,11 @@ DocLocal  == [][\A d \in Docs, f \in Fields :
                   doc'[d][f] # doc[d][f] =>
                      /\ lastop' = "leave" /\ H[actor'].dirty /\ H[actor'].d = d /\ H[actor'].f = f
                      /\ \A m \in Modes : doc'[d][f][m] # doc[d][f][m] => m = H[actor'].m]_mvars
+\* every round of a list object is written back: after a dirty handle left its with-block without a refusal the
+\* document holds exactly the list the handle shows -- also when that equals what the object showed when it was
+\* made or wrote in an earlier round (negative control StaleSnapshot: open, append, leave, reenter, remove, leave)
+WriteBack == [][(lastop' = "leave" /\ res' = "ok" /\ H[actor'].inb /\ H[actor'].dirty) =>
+                  doc'[H[actor'].d][H[actor'].f][H[actor'].m] = Vals(H[actor'].el)]_mvars
 IdsUnique == \A h \in Handles : \A i, j \in 1..Len(H[h].el) : H[h].el[i].id = H[h].el[j].id => i = j
 \* a reader that is not dirty never marks anything stale, a write marks every other handle of the field
 StaleOnlyAfterWrite == [][\A h \in Handles : (H'[h].live /\ H'[h].stale /\ ~(H[h].live /\ H[h].stale)) => lastop' = "leave" /\ actor' # h]_mvars
